@@ -282,8 +282,9 @@ Proof.
   { destruct (Nat.lt_ge_cases d 3) as [H | H]; [assumption|]. rewrite nth_overflow in Sd by exact H. discriminate. }
   assert (Ha : (a < 3)%nat).
   { destruct (Nat.lt_ge_cases a 3) as [H | H]; [assumption|]. rewrite nth_overflow in Sa by exact H. discriminate. }
-  destruct d as [|[|[|d]]]; [discriminate | | | lia];
-  (destruct a as [|[|[|a]]]; [discriminate | | | lia]); vm_compute; discriminate.
+  destruct d as [|[|[|d]]]; [discriminate Sd | | | exfalso; clear - Hd; lia];
+  (destruct a as [|[|[|a]]]; [discriminate Sa | | | exfalso; clear - Ha; lia]);
+  vm_compute; intros E; discriminate E.
 Qed.
 Print Assumptions nondegenerate_example.
 
